@@ -34,6 +34,9 @@ pub enum Ans {
 pub struct Case {
     pub idempotent: bool,
     pub prepared: bool,
+    /// through the auto-paging API (query_iter / execute_iter) instead of the unpaged one
+    #[serde(default)]
+    pub iter: bool,
     pub max: u8,
     pub interval_ms: u16,
     /// per frame in arrival order: answer delay in ms and answer
@@ -99,20 +102,42 @@ fn run_case(env: &Env, c: &Case) -> Verdict {
     let text = format!("SELECT a FROM ks.t {marker}");
     let out = env.rt.block_on(async {
         let fut = async {
+            use futures::TryStreamExt;
+            let first_row = |q: scylla::response::query_result::QueryResult| q.into_rows_result().ok().and_then(|rr| rr.first_row::<(i32,)>().ok()).map(|x| x.0);
             if c.prepared {
                 let mut p = session.prepare(text.clone()).await.map_err(|e| format!("PREPARE:{e}"))?;
                 p.set_is_idempotent(c.idempotent);
                 p.set_execution_profile_handle(Some(profile.clone()));
                 let t = Instant::now();
-                let r = session.execute_unpaged(&p, ()).await;
-                Ok::<_, String>((r.map(|q| q.into_rows_result().ok().and_then(|rr| rr.first_row::<(i32,)>().ok()).map(|x| x.0)).map_err(|e| e.to_string()), t.elapsed()))
+                let r = if c.iter {
+                    match session.execute_iter(p, ()).await {
+                        Ok(pager) => match pager.rows_stream::<(i32,)>() {
+                            Ok(mut st) => st.try_next().await.map(|o| o.map(|x| x.0)).map_err(|e| e.to_string()),
+                            Err(e) => Err(e.to_string()),
+                        },
+                        Err(e) => Err(e.to_string()),
+                    }
+                } else {
+                    session.execute_unpaged(&p, ()).await.map(first_row).map_err(|e| e.to_string())
+                };
+                Ok::<_, String>((r, t.elapsed()))
             } else {
                 let mut s = Statement::new(text.clone());
                 s.set_is_idempotent(c.idempotent);
                 s.set_execution_profile_handle(Some(profile.clone()));
                 let t = Instant::now();
-                let r = session.query_unpaged(s, ()).await;
-                Ok((r.map(|q| q.into_rows_result().ok().and_then(|rr| rr.first_row::<(i32,)>().ok()).map(|x| x.0)).map_err(|e| e.to_string()), t.elapsed()))
+                let r = if c.iter {
+                    match session.query_iter(s, ()).await {
+                        Ok(pager) => match pager.rows_stream::<(i32,)>() {
+                            Ok(mut st) => st.try_next().await.map(|o| o.map(|x| x.0)).map_err(|e| e.to_string()),
+                            Err(e) => Err(e.to_string()),
+                        },
+                        Err(e) => Err(e.to_string()),
+                    }
+                } else {
+                    session.query_unpaged(s, ()).await.map(first_row).map_err(|e| e.to_string())
+                };
+                Ok((r, t.elapsed()))
             }
         };
         let r = tokio::time::timeout(D, fut).await;
@@ -161,6 +186,7 @@ fn run_case(env: &Env, c: &Case) -> Verdict {
         .class(format!("frames{}", seen.len()))
         .class_if(!c.idempotent, "non_idempotent")
         .class_if(c.prepared, "prepared")
+        .class_if(c.iter, "auto_paging_api")
         .class_if(all_ignorable, "all_ignorable")
         .class_if(result.is_err(), "call_failed"))
 }
@@ -169,16 +195,17 @@ pub fn case() -> BoxedStrategy<Case> {
     (
         any::<bool>(),
         any::<bool>(),
+        any::<bool>(),
         0u8..=3,
         prop_oneof![Just(30u16), Just(50)],
         proptest::collection::vec((prop_oneof![Just(0u16), Just(10), Just(45), Just(80), Just(130), Just(200)], prop_oneof![3 => Just(Ans::Ok), 2 => Just(Ans::Overloaded), 1 => Just(Ans::Invalid)]), 1..=4),
     )
-        .prop_map(|(idempotent, prepared, max, interval_ms, answers)| Case { idempotent, prepared, max, interval_ms, answers })
+        .prop_map(|(idempotent, prepared, iter, max, interval_ms, answers)| Case { idempotent, prepared, iter, max, interval_ms, answers })
         .boxed()
 }
 
 pub fn run(ctx: &Ctx, rep: &mut Report) {
-    rep.notes.push("wire: a 4-node mock answers the k-th frame of a request after a scripted delay (0..200 ms) with rows, an ignorable error or a definitive error; the session uses SimpleSpeculativeExecutionPolicy{max 0..3, interval 30/50 ms} and a fall-through retry policy. Oracle on the frames: a request not marked idempotent produces exactly one frame; at most 1 + max frames; no node twice; no execution before its turn; the result is one an execution was answered with, an ignorable error is returned only when nothing better was available; the call returns".into());
+    rep.notes.push("wire: a 4-node mock answers the k-th frame of a request after a scripted delay (0..200 ms) with rows, an ignorable error or a definitive error; the request goes through query/execute_unpaged or the auto-paging query/execute_iter; the session uses SimpleSpeculativeExecutionPolicy{max 0..3, interval 30/50 ms} and a fall-through retry policy. Oracle on the frames: a request not marked idempotent produces exactly one frame; at most 1 + max frames; no node twice; no execution before its turn; the result is one an execution was answered with, an ignorable error is returned only when nothing better was available; the call returns".into());
     run_prop_par(rep, "wire", ctx.tier.pick(1_500, 100_000), ncpu(), case, oracle);
 }
 
